@@ -152,4 +152,41 @@ theorem run_maxInv (ops : List Op) : ∀ (b : Buf), WF b → Fits b ops → MaxI
     rw [run_cons]
     exact ih _ (step_wf b op h hr) hrest (step_maxInv b op h hr hm).1
 
+/-! ### `Fits` from a bound on the total size of the history -/
+
+/-- total number of bytes a history asks for -/
+def totalSize : List Op → Nat
+  | [] => 0
+  | op :: rest => opSize op + totalSize rest
+
+theorem step_tight (b : Buf) (op : Op) (h : WF b) (hr : Room b (opSize op)) :
+    (step b op).1.curSz ≤ max b.curSz (3 * (b.offset + opSize op)) ∧
+      (step b op).1.offset ≤ b.offset + opSize op := by
+  by_cases hne : op = .reset
+  · subst hne
+    have := h.pad
+    simp only [step, reset, opSize]; omega
+  · rcases step_spec b op hne h hr with ⟨he, _⟩ | ⟨b', out, he, _, a⟩
+    · rw [he]; simp only; omega
+    · rw [he]
+      have t := a.tight; have o := a.offset
+      rw [opBytes_length] at t o
+      simp only; omega
+
+/-- The capacity never exceeds `max(initial capacity, 3·(initial offset + total size))`, so a
+bound on the total size of the history excludes overflow. -/
+theorem fits_of_total (K : Nat) : ∀ (ops : List Op) (b : Buf), WF b →
+    b.curSz ≤ K → 3 * (b.offset + totalSize ops) ≤ K → 8 * K + 8 * totalSize ops + 128 < 2 ^ 62 →
+    Fits b ops := by
+  intro ops
+  induction ops with
+  | nil => intro b _ _ _ _; trivial
+  | cons op rest ih =>
+    intro b h hc ho hk
+    simp only [totalSize] at ho hk
+    have hr : Room b (opSize op) := by unfold Room; omega
+    refine ⟨hr, ?_⟩
+    obtain ⟨t1, t2⟩ := step_tight b op h hr
+    exact ih _ (step_wf b op h hr) (by omega) (by omega) (by omega)
+
 end RV.Buffer
